@@ -30,11 +30,45 @@ def parse_stats(text):
     return st
 
 
-def parse_coverage(text):
-    """per-action counts from -coverage output: <Name line ... of module M>: distinct:total"""
+_DEFS = {}
+
+
+def _def_ranges(module):
+    """[(first line, last line, operator name)] of the top-level definitions of a spec module"""
+    if module in _DEFS:
+        return _DEFS[module]
+    path = os.path.join(SPECS, module + ".tla")
+    out = []
+    try:
+        lines = open(path).read().splitlines()
+    except OSError:
+        _DEFS[module] = out
+        return out
+    starts = []
+    for n, l in enumerate(lines, 1):
+        m = re.match(r"^([A-Z]\w*)(\([^)]*\))?\s*==", l)
+        if m:
+            starts.append((n, m.group(1)))
+    for k, (n, name) in enumerate(starts):
+        end = starts[k + 1][0] - 1 if k + 1 < len(starts) else len(lines)
+        out.append((n, end, name))
+    _DEFS[module] = out
+    return out
+
+
+def parse_coverage(text, modules=("LoomSem", "LoomSemTrace", "Explore", "AtomicSeq")):
+    """per-operator evaluation counts from `-coverage` output: the largest count reported for any
+    expression inside the operator's definition"""
     cov = {}
-    for m in re.finditer(r"^<(\w+) line \d+, col \d+ to line \d+, col \d+ of module (\w+)>: (\d+):(\d+)", text, re.M):
-        cov[m.group(1)] = cov.get(m.group(1), 0) + int(m.group(4))
+    for m in re.finditer(r"^\s*\|*line (\d+), col \d+ to line \d+, col \d+ of module (\w+): (\d+)", text, re.M):
+        line, mod, cnt = int(m.group(1)), m.group(2), int(m.group(3))
+        if mod not in modules:
+            continue
+        for (a, b, name) in _def_ranges(mod):
+            if a <= line <= b:
+                if cnt > cov.get(name, 0):
+                    cov[name] = cnt
+                break
     return cov
 
 
